@@ -467,3 +467,148 @@ def gen_integral_ir(repo, res):
                 msgs.append("the record does not carry the result computed for its own group (compute_integral_ir's output of another group)")
             if msgs:
                 res.fail(key, f"{label}, integral group {gi} ({t_} on {mesh_.f['name']}, ids {ids}): " + "; ".join(msgs), loc)
+
+
+@rule(
+    "GEN-EXPRESSION-IR",
+    ["C04", "C05", "C08", "C20", "C19"],
+    "representation._compute_expression_ir interpreted as a whole on a sample (processed, points, original) triple - the original expression has "
+    "coefficients [A, B, C] and constants [k0, k1, k2], preprocessing kept [B, C]; one P2 argument; two domains of different dimension; "
+    "value shape (2,3) - with cell points, facet points, points of a wrong dimension, two arguments, and a domain-free expression: every "
+    "field of the ExpressionIR is compared with its specification (positions among the *original* coefficients, numbering and offsets over "
+    "the processed ones, constant names and offsets over the original constants, names through object_names under the identity of the "
+    "original objects, entity type from the point dimension, coordinate element of the highest-dimensional domain) and the per-rule "
+    "analysis must be handed the processed expression under one rule with these points and unit weights",
+    min_instances=5,
+)
+def gen_expression_ir(repo, res):
+    from ..npmodel import NDArr, NPInt, install_arrays
+
+    m = repo.mod(REP)
+    g = m.func("_compute_expression_ir")
+    res.functions.add(g.key)
+    loc = m.line(g.node)
+    elA, elB, elC, elP2 = (Node("Element", name=n_, dim=d_) for n_, d_ in (("elA", 6), ("elB", 3), ("elC", 4), ("P2", 6)))
+    A, B, C = (Node("Coefficient", name=n_, ufl_element=_PyCall(lambda e_=e: e_)) for n_, e in (("A", elA), ("B", elB), ("C", elC)))
+    k0, k1, k2 = Node("Constant", name="k0", ufl_shape=()), Node("Constant", name="k1", ufl_shape=(2, 3)), Node("Constant", name="k2", ufl_shape=(NPInt(2),))
+    V = Node("FunctionSpace", ufl_element=_PyCall(lambda: elP2))
+    arg0, arg1 = Node("Argument", name="v", ufl_function_space=_PyCall(lambda: V)), Node("Argument", name="u", ufl_function_space=_PyCall(lambda: V))
+
+    def mesh(tdim, h, nd):
+        cell = Node("Cell", cellname={1: "interval", 2: "triangle", 3: "tetrahedron"}[tdim], topological_dimension=tdim)
+        ce = Node("CoordinateElement", basix_hash=_PyCall(lambda: h), dim=nd)
+        return Node("Mesh", topological_dimension=tdim, ufl_cell=_PyCall(lambda: cell), ufl_coordinate_element=_PyCall(lambda: ce)), cell
+    (m1, c1), (m2, c2) = mesh(1, 555, 2), mesh(2, 111, 6)
+
+    def run(points, args, domains, free=False):
+        processed, original = Node("UflExpr", name="processed", ufl_shape=(2, 3)), Node("UflExpr", name="original", ufl_shape=(2, 3))
+        it = install_arrays(Interp(repo, load_classes(repo), primary=REP))
+        it.overrides["logger"] = Node("Logger", info=_PyCall(lambda *a: None), debug=_PyCall(lambda *a: None))
+
+        def which(x, fn):
+            if x is processed:
+                return "processed"
+            if x is original:
+                return "original"
+            raise AnalysisError(f"{fn} applied to something else than the processed / original expression")
+        for pre in ("ufl.algorithms.", "ufl.algorithms.analysis.", ""):
+            it.overrides[pre + "extract_coefficients"] = _PyCall(lambda x: [] if free else ([B, C] if which(x, "extract_coefficients") == "processed" else [A, B, C]))
+            it.overrides[pre + "extract_constants"] = _PyCall(lambda x: [] if free else ([k1, k2] if which(x, "extract_constants") == "processed" else [k0, k1, k2]))
+            it.overrides[pre + "extract_arguments"] = _PyCall(lambda x: list(args) if which(x, "extract_arguments") else [])
+        it.overrides["ufl.domain.extract_domains"] = _PyCall(lambda x: list(domains))
+        it.overrides["naming.expression_name"] = _PyCall(lambda e, prefix, i=None: ("name", e, prefix, i))
+        it.overrides["np.prod"] = _PyCall(lambda shape, dtype=None: __import__("math").prod(int(x) for x in shape))
+        it.overrides["id"] = _PyCall(lambda o: id(o))
+        it.overrides["QuadratureRule"] = _PyCall(lambda pts, w, tf=None: Node("QuadratureRule", points=pts, weights=w, tensor_factors=tf))
+        calls = []
+
+        def cir(cell, itype, etype, integrands, tshape, options, visualise):
+            calls.append((cell, itype, etype, integrands, list(tshape), options, visualise))
+            return {"needs_facet_permutations": False, "unique_tables": {}, "unique_table_types": {}, "integrand": {"marker": 1}}
+        it.overrides["compute_integral_ir"] = _PyCall(cir)
+        it.overrides["CommonExpressionIR"] = _PyCall(lambda **k: Node("CommonExpressionIR", **k))
+        it.overrides["ExpressionIR"] = _PyCall(lambda **k: Node("ExpressionIR", **k))
+        onames = {id(C): "gamma", id(k1): "kappa", id(original): "flux", id(processed): "WRONG", id(B.f["ufl_element"]): "x"}
+        analysis = Node("UFLData", unique_elements=[elA, elP2, elB, elC])
+        opts = {"scalar_type": "float64", "marker": "opts"}
+        out = it.call_f(g, [(processed, points, original), 4, "p", analysis, opts, False, onames])
+        return out, calls, processed, original, opts
+
+    def named(d):
+        return sorted((k.f.get("name"), int(v)) for k, v in d.items()) if isinstance(d, dict) else d
+
+    pts_cell, pts_facet, pts_bad = NDArr([[0.25, 0.5], [0.5, 0.25], [0.125, 0.125]], (3, 2)), NDArr([[0.25], [0.5], [0.75]], (3, 1)), NDArr([[0.1, 0.2, 0.3]], (1, 3))
+    for label, points, etype in (("cell points on a triangle", pts_cell, "cell"), ("facet points on a triangle", pts_facet, "facet")):
+        key = f"{g.key}:{label}"
+        res.ob(key)
+        try:
+            out, calls, processed, original, opts = run(points, [arg0], [m1, m2])
+        except Raised as e:
+            res.fail(key, f"_compute_expression_ir raises ({e.what}) on the sample expression with {label}", loc)
+            continue
+        if not isinstance(out, Node) or not isinstance(out.f.get("expression"), Node):
+            raise AnalysisError("_compute_expression_ir did not return an ExpressionIR record")
+        x, e_ = out.f, out.f["expression"].f
+        checks = [
+            ("name", e_.get("name"), ("name", (original, points), "p", 4), "expression_name((original expression, points), prefix, index)"),
+            ("tensor_shape", list(e_.get("tensor_shape", ["?"])), [6], "the dimension of the argument's element"),
+            ("shape", list(e_.get("shape", ["?"])), [2, 3], "the value shape of the expression"),
+            ("coefficient_numbering", named(e_.get("coefficient_numbering")), [("B", 0), ("C", 1)], "position among the coefficients of the processed expression"),
+            ("original_coefficient_positions", [int(v) for v in x.get("original_coefficient_positions", [])], [1, 2],
+             "index of each processed coefficient among the coefficients [A, B, C] of the ORIGINAL expression (what the caller packs w by)"),
+            ("coefficient_names", x.get("coefficient_names"), ["w0", "gamma"], "names registered for the coefficient objects, w<j> otherwise, in processed order"),
+            ("constant_names", x.get("constant_names"), ["c0", "kappa", "c2"], "one name per constant of the ORIGINAL expression (the caller packs all of them into c)"),
+            ("name_from_uflfile", x.get("name_from_uflfile"), "expression_p_flux", "the name registered under the identity of the ORIGINAL expression"),
+            ("coefficient_offsets", named(e_.get("coefficient_offsets")), [("B", 0), ("C", 3)], "exclusive prefix sums of the element dimensions of the processed coefficients"),
+            ("original_constant_offsets", named(e_.get("original_constant_offsets")), [("k0", 0), ("k1", 1), ("k2", 7)], "exclusive prefix sums of prod(shape) over the original constants"),
+            ("integral_type", e_.get("integral_type"), "expression", ""),
+            ("entity_type", e_.get("entity_type"), etype, "cell when the points have the cell's dimension, facet when one less"),
+            ("coordinate_element_hash", e_.get("coordinate_element_hash"), 111, "of the domain of highest topological dimension"),
+            ("number_coordinate_dofs", e_.get("number_coordinate_dofs"), 6, "of the domain of highest topological dimension"),
+            ("integrand", e_.get("integrand"), {"marker": 1}, "the result of the per-rule analysis"),
+        ]
+        for fld, got, want, why in checks:
+            if got != want:
+                res.fail(key, f"{label}: {fld} = {got!r}, expected {want!r}" + (f" ({why})" if why else ""), loc,
+                         props=("C04", "C05", "C08") if fld in ("original_coefficient_positions", "coefficient_offsets", "original_constant_offsets", "coefficient_numbering")
+                         else ("C04", "C20") if fld in ("name", "name_from_uflfile", "coefficient_names", "constant_names") else ("C04",))
+        if len(calls) != 1:
+            res.fail(key, f"{label}: the per-rule analysis is called {len(calls)} times", loc, props=("C04",))
+        else:
+            cell, itype, et_, integrands, tshape, o_, vis = calls[0]
+            ok = cell is c2 and itype == "expression" and et_ == etype and tshape == [6] and o_ is opts and vis is False and isinstance(integrands, dict) and len(integrands) == 1
+            if ok:
+                inner = list(integrands.values())[0]
+                ok = isinstance(inner, dict) and len(inner) == 1
+                if ok:
+                    (rule_, expr_), = inner.items()
+                    w_ = rule_.f.get("weights") if isinstance(rule_, Node) else None
+                    wl = w_.tolist() if hasattr(w_, "tolist") else w_
+                    ok = expr_ is processed and isinstance(rule_, Node) and rule_.f.get("points") is points and wl == [1.0] * 3
+            if not ok:
+                res.fail(key, f"{label}: compute_integral_ir is not handed (cell of the 2D domain, 'expression', {etype!r}, {{'': {{rule(points, unit weights): processed "
+                         "expression}}, [6], the caller's options, visualise)", loc, props=("C04",))
+    key = f"{g.key}:points-of-wrong-dimension-rejected"
+    res.ob(key)
+    try:
+        run(pts_bad, [arg0], [m2])
+        res.fail(key, "points with three coordinates on a triangle (neither the cell's nor a facet's dimension) are accepted", loc, props=("C19", "C04"))
+    except Raised:
+        pass
+    key = f"{g.key}:two-arguments-rejected"
+    res.ob(key)
+    try:
+        run(pts_cell, [arg0, arg1], [m2])
+        res.fail(key, "an expression with two arguments is accepted although A[point][component][dof] has room for one", loc, props=("C19", "C04"))
+    except Raised:
+        pass
+    key = f"{g.key}:domain-free-expression"
+    res.ob(key)
+    try:
+        out, calls, processed, original, opts = run(pts_cell, [], [], free=True)
+        e_ = out.f["expression"].f
+        got = (e_.get("entity_type"), e_.get("coordinate_element_hash"), e_.get("number_coordinate_dofs"), list(e_.get("tensor_shape", ["?"])), calls[0][0] if calls else "?")
+        if got != ("cell", 0, 0, [], None):
+            res.fail(key, f"an expression without domain: (entity type, coordinate hash, coordinate dofs, tensor shape, cell) = {got}, expected ('cell', 0, 0, [], None)", loc, props=("C04",))
+    except Raised as e:
+        res.fail(key, f"_compute_expression_ir raises ({e.what}) on an expression without domain, coefficients and constants", loc, props=("C04", "C19"))
